@@ -399,6 +399,51 @@ func runC15(p *core.Prog, r *core.Report) {
 		})
 		r.Check(ok, "C15.R6", "EndOfStream/index", "for each item of the index module's output, every key decoded from that item's payload gets that item's block number added to its bitmap", "Add(item.BlockNum) on indexes[key] with keys of the same item not found", p.Pos(fn.Pos()))
 	})
+	r.Guard("C15.R4", "SkipFromKeys/own-keys", "the block's own keys", func() {
+		fn := p.Func(pkgIndex, "BlockIndex.SkipFromKeys")
+		r.Touch(core.FuncName(fn))
+		ka := p.FuncObj(pkgSqe, "KeysApply")
+		calls := core.FindInstrs(fn, core.IsCallTo(ka))
+		if len(calls) == 0 {
+			core.Undecide("SkipFromKeys: no KeysApply call")
+		}
+		for _, c := range calls {
+			// the keys evaluated: a message allocated in this call ...
+			var keysObj ssa.Value
+			okFresh := false
+			for _, nk := range core.FindInstrs(fn, core.IsCallTo(p.FuncObj(pkgSqe, "NewFromIndexKeys"))) {
+				arg := nk.(ssa.CallInstruction).Common().Args[0]
+				if al, ok := arg.(*ssa.Alloc); ok {
+					keysObj, okFresh = al, true
+				} else {
+					keysObj = arg
+				}
+			}
+			// ... decoded, on every path, from the bytes given for this block
+			isDecode := func(in ssa.Instruction) bool {
+				cl := core.CalleeOf(in)
+				if cl == nil || !strings.HasPrefix(cl.Name(), "Unmarshal") {
+					return false
+				}
+				args := in.(ssa.CallInstruction).Common().Args
+				fromParam, intoKeys := false, false
+				for _, a := range args {
+					if core.SkipConv(a) == ssa.Value(fn.Params[1]) {
+						fromParam = true
+					}
+					if mi, ok := a.(*ssa.MakeInterface); ok && mi.X == keysObj {
+						intoKeys = true
+					}
+					if a == keysObj {
+						intoKeys = true
+					}
+				}
+				return fromParam && intoKeys
+			}
+			_, always := core.MustPassBefore(fn, isDecode, func(in ssa.Instruction) bool { return in == c })
+			r.Check(okFresh && always, "C15.R4", "SkipFromKeys/own-keys", "the on-the-fly decision of a block is taken on that block's own keys: a key list allocated in the call and decoded from the bytes given for the block on every path (an index module that emits nothing for a block yields an empty list, not the previous block's)", fmt.Sprintf("fresh key list=%v, decoded on every path=%v", okFresh, always), p.Pos(c.Pos()))
+		}
+	})
 	r.Guard("C15.R6", "index-per-module", "one index per index module", func() {
 		fn := p.Func(pkgCache, "Engine.EndOfStream")
 		var writes []*ssa.Call
